@@ -893,6 +893,8 @@ fn alphabet(env: &Env) -> Vec<String> {
         "3p", "1p", "third-party", "~third-party", "first-party", "image", "media", "object", "other", "ping", "script", "stylesheet", "subdocument", "xmlhttprequest", "websocket",
         "font", "document", "~image", "~websocket", "image,script", "script,subdocument", "subdocument,document", "subdocument,script,3p", "object,ping", "image,ping", "important",
         "redirect=a", "redirect-rule=a", "csp=script-src x", "removeparam=a", "badfilter", "tag=t", "unknownopt",
+        // two party options on one rule (same restriction twice, and contradictory pairs)
+        "3p,1p", "third-party,first-party", "3p,~3p", "~first-party,first-party", "3p,~1p", "1p,~3p,image",
     ] {
         add(&format!("ads${}", o));
     }
